@@ -1,1 +1,3 @@
 import Dagrt.Props.C06
+import Dagrt.Props.C10
+import Dagrt.Props.C14
